@@ -20,7 +20,7 @@ RULE = ("full product plaintext length x 32-bit key id at CBOR width boundaries 
         "the supplied blob. distinct = distinct parameter tuples; non-trivial = artifacts produced and decrypted")
 ASSUMPTIONS = ["cryptography AESGCM", "hashlib", "svmc/refcbor.py"]
 BOUNDS = {"quick": "11 lengths x 9 key ids x 5 algorithms x 2 paths; generate-info 4 blob lengths x 9 key ids x 2 kw algorithms",
-          "thorough": "same (complete product)"}
+          "thorough": "every length 0..80 + 18 boundary lengths up to 1 MiB x 18 key ids x 5 algorithms x 2 paths; generate-info blob lengths 28..61 + boundaries x 18 key ids x 2 kw algorithms"}
 
 LENS = [0, 1, 15, 16, 17, 31, 32, 255, 256, 4096, 65537]
 KIDS = [0, 1, 23, 24, 255, 256, 65535, 65536, 2**32 - 1]
@@ -132,7 +132,11 @@ def check_artifacts(outdir, key, pt, kid, halg, kw="direct", cek=None):
 def enc_cases(tier):
     out = []
     i = 0
-    for L, kid, h in itertools.product(LENS, KIDS, HALGS):
+    lens, kids = LENS, KIDS
+    if tier == "thorough":
+        lens = sorted(set(LENS) | set(range(0, 81)) | {257, 1023, 1024, 4095, 4097, 65535, 65536, 1 << 20})
+        kids = KIDS + [2, 22, 25, 254, 257, 2**31 - 1, 2**31, 0x7FFFFFE0, 0x40000000]
+    for L, kid, h in itertools.product(lens, kids, HALGS):
         for path in ("object", "main"):
             out.append({"L": L, "kid": kid, "h": h, "path": path, "i": i})
             i += 1
@@ -212,7 +216,11 @@ def run_enc(case, agg):
 def gi_cases(tier):
     out = []
     i = 0
-    for bl, kid, kw in itertools.product([28, 29, 44, 4124], KIDS, ("direct", "aes-kw-256")):
+    bls, kids = [28, 29, 44, 4124], KIDS
+    if tier == "thorough":
+        bls = sorted(set(bls) | set(range(28, 62)) | {283, 284, 65564, 65565})
+        kids = KIDS + [2, 22, 25, 254, 257, 2**31 - 1, 2**31, 0x7FFFFFE0, 0x40000000]
+    for bl, kid, kw in itertools.product(bls, kids, ("direct", "aes-kw-256")):
         for path in ("object", "main"):
             out.append({"bl": bl, "kid": kid, "kw": kw, "path": path, "i": i})
             i += 1
